@@ -163,6 +163,7 @@ Fingerprint fingerprint(asn_TYPE_descriptor_t *td, const void *st);
 void *random_value(asn_TYPE_descriptor_t *td, uint64_t value_seed, size_t budget);
 // seed-file values (BASIC-XER lines under <values_dir>/<Type>.xer) for PDUs that cannot be random-filled
 extern std::string g_values_dir;
+extern std::string g_history;      // "seed start stride index tier" of the run in progress (set by the run loop)
 std::vector<std::string> seed_value_texts(asn_TYPE_descriptor_t *td);
 void *value_from_xer(asn_TYPE_descriptor_t *td, const std::string &text);
 
